@@ -81,13 +81,47 @@ def run(tier):
                             {"glycan": tx + sfx, "root_orientation": opt, "start": st, "observed": got, "with_default_start": want,
                              "problem": "the start option changed the molecule",
                              "replay_cmd": "./check C13 --replay <this file>"})
+    # (iv) every kind of reducing end x every free position x start on that position: anomer by option = anomer by suffix,
+    #      whatever the start
+    ends = sorted(T.RES) + [x for x in ("Sorf", "Tagf", "Psif", "Hex", "Pen", "Hexf", "Penf", "Leg", "Pse", "Aci", "Sia", "Neu", "Kdof") if x not in T.RES]
+    extra_pos = {"Sorf": (1, 3, 4, 6), "Tagf": (1, 3, 4, 6), "Psif": (1, 3, 4, 6), "Hex": (2, 3, 4, 6), "Pen": (2, 3, 4), "Hexf": (2, 3, 5, 6), "Penf": (2, 3, 5),
+                 "Leg": (4, 8), "Pse": (4, 8), "Aci": (4, 8), "Sia": (4, 7, 8, 9), "Neu": (4, 7, 8, 9), "Kdof": (4, 7, 8)}
+    if tier == "quick":
+        ends = r.sample(ends, 16)
+    sreqs, smeta = [], []
+    for root in ends:
+        poss = T.RES[root][1] if root in T.RES else extra_pos[root]
+        for p_ in poss:
+            txt = f"Gal(b1-{p_}){root}"
+            for sfx in (" a", " b"):
+                sreqs.append({"iupac": txt + sfx, "kw": {}}); smeta.append((txt, sfx.strip(), "ref", 100))
+            for opt in ("a", "b"):
+                for st in sorted(set([p_, 100] + ([1, 2, 3, 4, 5, 6, 7, 8, 9] if tier == "thorough" else r.sample([1, 2, 3, 4, 5, 6, 7, 8, 9], 2)))):
+                    sreqs.append({"iupac": txt, "kw": {"root_orientation": opt, "start": st}}); smeta.append((txt, opt, "opt", st))
+    souts = C.run_impl_parallel("convert_many", sreqs)
+    stab = {m: o["smiles"] for m, o in zip(smeta, souts)}
+    swept = 0
+    for (txt, an, kind, st), got in stab.items():
+        if kind != "opt":
+            continue
+        want = stab[(txt, an, "ref", 100)]
+        if not want:
+            continue
+        swept += 1
+        report.cov["evaluations"] += 1
+        if not got or not orc.same(got, want):
+            report.fail({"site": "start", "kind": "molecule-changed" if got else "empty", "start": "linkage-position" if str(st) in txt.split(")")[0][-1:] else ("range" if 1 <= st <= 9 else str(st)),
+                         "anomer_by": "option"},
+                        {"glycan": txt, "root_orientation": an, "start": st, "observed": got, "with_suffix_and_default_start": want,
+                         "problem": "anomer given by option + start differs from the same anomer given by suffix",
+                         "replay_cmd": "./check C13 --replay <this file>"})
     orc.close()
     if broken and not report.violations:
         report.fail({"site": "proof", "kind": "obligation-broken"},
                     {"no_failing_input": True, "what_no_longer_checks": broken, "theorems": names_thm})
     report.assumptions = ["A-rdkit-write: a SMILES rooted at another atom denotes the same molecule (decided per input by Iso.same_molecule)"]
-    extra = {"rule": "glycans x root anomer {none,a,b} by suffix x option {n,a,b} x start in {1..9,100,0,-1,42,10,1000} (quick: 7 of them); distinct glycans, non-trivial = at least 2 residues",
-             "conversions": len(reqs), "print_assumptions": res.assumptions.get(f"Props/{PROP}.v", "").strip().splitlines()[-4:]}
+    extra = {"rule": "glycans x root anomer {none,a,b} by suffix x option {n,a,b} x start in {1..9,100,0,-1,42,10,1000} (quick: 7 of them); plus every reducing-end residue of the generator's vocabulary and further ring forms x every free position x anomer by option x start on the linkage position; distinct glycans, non-trivial = at least 2 residues",
+             "conversions": len(reqs) + len(sreqs), "reducing_end_sweep": swept, "print_assumptions": res.assumptions.get(f"Props/{PROP}.v", "").strip().splitlines()[-4:]}
     return report.finish("proof", ob, dis, names_thm, trusted=C.TRUSTED, extra=extra)
 
 
